@@ -16,6 +16,10 @@ pub trait Subject: Send + Sync {
     /// through JsonError (None when the type is fixed to the recording error type)
     fn run_jsonerror(&self, p: &serde_json::Value) -> Option<Result<Result<Proj, String>, String>>;
     fn run_qperror(&self, p: &serde_json::Value) -> Option<Result<Result<Proj, String>, String>>;
+    /// through the built-in error types with the second value source: (error type name, outcome)
+    fn run_ov_builtins(&self, _p: &Ov) -> Vec<(&'static str, Result<Result<Proj, String>, String>)> {
+        vec![]
+    }
     /// Rust source of a generated subject
     fn source(&self) -> Option<&str> {
         None
@@ -89,6 +93,9 @@ impl<T: Deserr<Rec> + Deserr<JsonError> + Deserr<QueryParamError> + ToProj> Subj
     }
     fn run_qperror(&self, p: &serde_json::Value) -> Option<Result<Result<Proj, String>, String>> {
         Some(monitor::run_json_with::<T, QueryParamError>(p))
+    }
+    fn run_ov_builtins(&self, p: &Ov) -> Vec<(&'static str, Result<Result<Proj, String>, String>)> {
+        vec![("JsonError", monitor::run_ov_with::<T, JsonError>(p)), ("QueryParamError", monitor::run_ov_with::<T, QueryParamError>(p))]
     }
     fn source(&self) -> Option<&str> {
         self.source.as_deref()
